@@ -296,42 +296,72 @@ def r09_2(ctx, rr):
         rr.check(len(ev["enc_el"]) == 1 and len(want) == 1 and ev["enc_th"] == 0, "RearCodedListBuilder::push:rear-length", "inside a block the rear length `last_str.len() - lcp` must be encoded before the suffix; the first string of a block is stored verbatim", F.loc(blk))
         rr.instances += 1
         rr.check(ev["suffix_el"], "RearCodedListBuilder::push:suffix", "inside a block only the suffix after the common prefix is stored, sliced from the *bytes* of the string (the common prefix is a byte count and may end inside a multi-byte character)", F.loc(blk))
-    s = show(F, pb.body)
+    pslf = ("var", "self", pb.params[0]["id"])
+    pstr = pb.params[1]["id"]
+    Tpb = Termizer(F, pb)
+
+    def stmts_of(n):
+        return n["stmts"] + ([n["expr"]] if "expr" in n else [])
+
+    def is_call_on(n, field, name):
+        while n.get("k") == "Block" and not n["stmts"] and "expr" in n:
+            n = n["expr"]
+        return n.get("k") == "MethodCall" and n["name"] == name and Tpb.term(n["recv"]) == ("field", pslf, field)
+    top = stmts_of(pb.body)
+    nul_ok = False
+    for a_, b_ in zip(top, top[1:]):
+        if is_call_on(a_, "data", "extend_from_slice") and is_call_on(b_, "data", "push"):
+            arg = b_["args"][0] if b_.get("k") == "MethodCall" else None
+            nul_ok = arg is not None and arg.get("k") == "Lit" and str(arg.get("v")) == "0"
     rr.instances += 1
-    rr.check(re.search(r"self\.data\.extend_from_slice\(to_encode\);\s*self\.data\.push\(0\);", s) is not None, "RearCodedListBuilder::push:nul", "every stored (suffix of a) string must be followed by a NUL terminator", pb.span)
+    rr.check(nul_ok, "RearCodedListBuilder::push:nul", "every stored (suffix of a) string must be followed by a NUL terminator (`data.extend_from_slice(..)` directly followed by `data.push(0)`)", pb.span)
     rr.instances += 1
-    rr.check(re.search(r"self\.last_str\.clear\(\);\s*self\.last_str\.extend_from_slice\(string\.as_bytes\(\)\);\s*self\.len \+= 1;", s) is not None, "RearCodedListBuilder::push:state", "push must remember the whole string as last_str and count it", pb.span)
+    seq = []
+
+    def on_state(Wk, n, K):
+        if n.get("k") == "MethodCall" and Wk.T.term(n["recv"]) == ("field", pslf, "last_str") and n["name"] in ("clear", "extend_from_slice"):
+            whole = n["name"] == "clear" or (n["args"] and not any(x.get("k") == "Index" for x in walk(n["args"][0])) and mentions(Wk.expand(Wk.T.term(n["args"][0])), lambda x: x[0] == "var" and str(x[2]).split("#")[0] in (str(pstr),) or (x[0] == "var" and x[1] == pb.params[1]["name"])))
+            seq.append((n["name"], whole))
+        if n.get("k") == "AssignOp" and n["op"] == "+=" and Wk.T.term(n["l"]) == ("field", pslf, "len") and Wk.T.term(n["r"]) == ("int", 1):
+            seq.append(("len+1", True))
+    Walker(F, pb, on_node=on_state).run()
+    rr.check([x[0] for x in seq] == ["clear", "extend_from_slice", "len+1"] and all(x[1] for x in seq), "RearCodedListBuilder::push:state", "push must remember the whole new string as last_str (clear, then extend from its bytes) and count it once; found %s" % seq, pb.span)
     # decoders: truncate by the decoded rear length before appending
-    for path, buf in ((r"^<dict::rear_coded_list::Lend<'_, D, P> as lender::Lender>::next$", "self.buffer"), (r"^dict::rear_coded_list::RearCodedList::<D, P>::get_in_place$", "result"), (r"^dict::rear_coded_list::RearCodedList::<D, P>::index_of_sorted$", "result")):
+    for path in (r"^<dict::rear_coded_list::Lend<'_, D, P> as lender::Lender>::next$", r"^dict::rear_coded_list::RearCodedList::<D, P>::get_in_place$", r"^dict::rear_coded_list::RearCodedList::<D, P>::index_of_sorted$"):
         b = F.one(path)
-        s = show(F, b.body)
-        calls = [n for n in walk(b.body) if n.get("k") == "MethodCall" and n["name"] == "resize"]
-        ok = False
-        for n in calls:
-            a = show(F, n["args"][0])
-            r = show(F, n["recv"])
-            if r == buf and (a == "(%s.len() - len)" % buf or a == "lcp" and "let lcp = (%s.len() - len)" % buf in s):
-                ok = True
+        hits = []
+
+        def on_resize(Wk, n, K, hits=hits):
+            if n.get("k") == "MethodCall" and n["name"] in ("resize", "truncate") and n["args"]:
+                R = Wk.T.term(n["recv"])
+                a = Wk.expand(Wk.T.term(n["args"][0]))
+                ok = a[0] == "op" and a[1] == "-" and a[2] == ("call", "len", (R,)) and a[3][0] == "field" and a[3][2] == "0" and a[3][1][0] == "call" and a[3][1][1].endswith("decode_int")
+                hits.append(ok)
+        Walker(F, b, on_node=on_resize).run()
         rr.instances += 1
-        rr.check(ok, "%s:truncate-by-rear-length" % short_fn(b.key), "%s must shorten the previous string by the decoded rear length before appending the suffix" % b.key, b.span)
+        rr.check(any(hits), "%s:truncate-by-rear-length" % short_fn(b.key), "%s must shorten the previous string to `len - (rear length decoded by decode_int)` before appending the suffix" % b.key, b.span)
     lb = F.one(r"^<dict::rear_coded_list::Lend<'_, D, P> as lender::Lender>::next$")
     ls = ("var", "self", lb.params[0]["id"])
     TL = Termizer(F, lb)
-    okp = any(n.get("k") == "If" and TL.term(n["c"]) == mk_op("==", mk_op("%", ("field", ls, "index"), ("field", ("field", ls, "rca"), "k")), ("int", 0)) and "self.buffer.clear()" in show(F, n["th"]) for n in walk(lb.body))
+    okp = any(n.get("k") == "If" and TL.term(n["c"]) == mk_op("==", mk_op("%", ("field", ls, "index"), ("field", ("field", ls, "rca"), "k")), ("int", 0)) and any(x.get("k") == "MethodCall" and x["name"] == "clear" and TL.term(x["recv"]) == ("field", ls, "buffer") for x in walk(n["th"])) for n in walk(lb.body))
     rr.instances += 1
     rr.check(okp, "Lend::next:block-predicate", "Lend::next must restart from a verbatim string exactly when `index % k == 0` (the builder's predicate)", lb.span)
     gb = F.one(r"^dict::rear_coded_list::RearCodedList::<D, P>::get_in_place$")
     gs = ("var", "self", gb.params[0]["id"])
     gi = ("var", gb.params[1]["name"], gb.params[1]["id"])
-    W = Walker(F, gb)
-    W.run()
-    env = {}
-    for n in walk(gb.body):
-        if n.get("k") == "LetStmt" and n["pat"].get("k") == "PBind" and "init" in n and n["pat"]["name"] in ("block", "offset", "start"):
-            env[n["pat"]["name"]] = Termizer(F, gb).term(n["init"])
+    got = {"block": None, "replay": None}
+
+    def on_gip(Wk, n, K):
+        if n.get("k") == "Index" and Wk.T.term(n["e"]) == ("field", gs, "pointers") and got["block"] is None:
+            got["block"] = Wk.expand(Wk.T.term(n["i"]))
+        if n.get("k") == "Struct" and range_of(F, n) is not None:
+            lo, hi, incl = range_of(F, n)
+            if lo is not None and hi is not None and not incl:
+                got["replay"] = (Wk.expand(Wk.T.term(lo)), Wk.expand(Wk.T.term(hi)))
+    Walker(F, gb, on_node=on_gip).run()
     rr.instances += 1
-    ok = env.get("block") == mk_op("/", gi, ("field", gs, "k")) and env.get("offset") == mk_op("%", gi, ("field", gs, "k"))
-    rr.check(ok, "get_in_place:block/offset", "get_in_place must locate the block as index / k and replay index % k strings", gb.span)
+    ok = got["block"] == mk_op("/", gi, ("field", gs, "k"))
+    rr.check(ok, "get_in_place:block/offset", "get_in_place must locate the block as index / k (pointer index found: %s)" % (tshow(got["block"]) if got["block"] else None), gb.span)
     # the output buffer is emptied before the block head is copied into it
     evs = []
     for n in walk(gb.body):
@@ -341,9 +371,8 @@ def r09_2(ctx, rr):
             evs.append(("strcpy", F.line(n)))
     rr.instances += 1
     rr.check(bool(evs) and evs[0][0] == "clear", "get_in_place:clears-buffer", "get_in_place must clear the caller's buffer before decoding into it (the method exists to reuse one buffer across calls)", gb.span)
-    rngs = [range_of(F, n) for n in walk(gb.body) if n.get("k") == "Struct"]
     rr.instances += 1
-    rr.check(any(r and r[0] is not None and r[1] is not None and show(F, r[0]) == "0" and show(F, r[1]) == "offset" for r in rngs), "get_in_place:replay-count", "get_in_place must replay exactly `offset` rear-coded strings after the block head", gb.span)
+    rr.check(got["replay"] == (("int", 0), mk_op("%", gi, ("field", gs, "k"))), "get_in_place:replay-count", "get_in_place must replay exactly index %% k rear-coded strings after the block head (loop range found: %s)" % (tuple(map(tshow, got["replay"])) if got["replay"] else None,), gb.span)
     # in-block scan of index_of_sorted is clamped by the strings remaining in the last block
     ib = F.one(r"^dict::rear_coded_list::RearCodedList::<D, P>::index_of_sorted$")
     isf = ("var", "self", ib.params[0]["id"])
@@ -391,18 +420,43 @@ def r09_3(ctx, rr):
     rr.instances += 1
     rr.check(ok, "longest_common_prefix:order", "longest_common_prefix(a, b) must order by the first differing byte and, when one string is a prefix of the other, by the two *lengths* (a.len().cmp(&b.len())); found %s" % found, lc.span)
     # min_len = min(len a, len b) bounds the scan
-    mins = [n for n in walk(lc.body) if n.get("k") == "LetStmt" and n["pat"].get("name") == "min_len"]
+    Tlc = Termizer(F, lc)
+    mins = [n for n in walk(lc.body) if n.get("k") == "LetStmt" and "init" in n and Tlc.term(n["init"]) == mk_op("min", la, lb)]
+    bounded = False
+    if mins:
+        mid = mins[0]["pat"].get("id")
+        # the scan loop is bounded by it
+        bounded = any(x.get("k") == "Path" and x.get("id") == mid for x in walk(lc.body) if x is not mins[0]["pat"])
     rr.instances += 1
-    rr.check(bool(mins) and Termizer(F, lc).term(mins[0]["init"]) == mk_op("min", la, lb), "longest_common_prefix:min_len", "the scan must be bounded by min(a.len(), b.len())", lc.span)
+    rr.check(bool(mins) and bounded, "longest_common_prefix:min_len", "the scan must be bounded by min(a.len(), b.len())", lc.span)
     pb = F.one(r"^dict::rear_coded_list::RearCodedListBuilder::push$")
-    ifs = [n for n in walk(pb.body) if n.get("k") == "If" and "self.is_sorted = False" in show(F, n["th"])]
+    pslf = ("var", "self", pb.params[0]["id"])
+    clears = []
+
+    def on_if(Wk, n, K):
+        sets = [x for x in walk(n["th"]) if x.get("k") == "Assign" and Wk.T.term(x["l"]) == ("field", pslf, "is_sorted")]
+        if sets:
+            clears.append((Wk.expand(Wk.T.term(n["c"])), "el" in n, [x["r"].get("v") for x in sets]))
+    Wp = Walker(F, pb)
+    Wp.on_if = on_if
+    Wp.run()
+    all_sets = [x for x in walk(pb.body) if x.get("k") == "Assign" and Termizer(F, pb).term(x["l"]) == ("field", pslf, "is_sorted")]
     rr.instances += 1
-    ok = len(ifs) == 1 and show(F, ifs[0]["c"]) == "(order == Ordering::Greater)" and "el" not in ifs[0]
-    rr.check(ok, "push:is_sorted", "push must clear is_sorted exactly when the previous string is greater than the new one", pb.span)
+    ok = False
+    cmp_call = None
+    if len(clears) == 1 and len(all_sets) == 1 and not clears[0][1] and clears[0][2] == [False]:
+        c = clears[0][0]
+        if c[0] == "op" and c[1] == "==":
+            sides = [c[2], c[3]]
+            g = [x for x in sides if x[0] == "def" and x[1].endswith("Ordering::Greater")]
+            o = [x for x in sides if x[0] == "field" and x[2] == "1" and x[1][0] == "call" and x[1][1].endswith("longest_common_prefix")]
+            if g and o:
+                ok = True
+                cmp_call = o[0][1]
+    rr.check(ok, "push:is_sorted", "push must clear is_sorted exactly when longest_common_prefix reports the previous string greater than the new one (found %s)" % [tshow(c[0]) for c in clears], pb.span)
     # the order comes from longest_common_prefix(last_str, string)
-    calls = [n for n in walk(pb.body) if cname(F, n) == "rear_coded_list::longest_common_prefix"]
     rr.instances += 1
-    ok = len(calls) == 1 and show(F, calls[0]["args"][0]) == "&self.last_str" and show(F, calls[0]["args"][1]) == "string.as_bytes()"
+    ok = cmp_call is not None and len(cmp_call[2]) == 2 and cmp_call[2][0] == ("field", pslf, "last_str") and mentions(cmp_call[2][1], lambda x: x[0] == "var" and x[1] == pb.params[1]["name"]) and not mentions(cmp_call[2][1], lambda x: x[0] == "field" and x[2] == "last_str")
     rr.check(ok, "push:compares-last-with-new", "push must compare (last_str, new string) in this order", pb.span)
     ib = F.one(r"^<dict::rear_coded_list::RearCodedList<D, P> as traits::indexed_dict::IndexedDict>::index_of$")
     t = Termizer(F, ib).term(ib.body)
@@ -412,7 +466,10 @@ def r09_3(ctx, rr):
     rr.check(ok, "RearCodedList::index_of:dispatch", "index_of must use the binary search only when is_sorted holds and the linear scan otherwise", ib.span)
     cb = F.one(r"^<dict::rear_coded_list::RearCodedList<D, P> as traits::indexed_dict::IndexedDict>::contains$")
     rr.instances += 1
-    rr.check(show(F, cb.body).replace(" ", "") == "{self.index_of(value).is_some()}", "RearCodedList::contains", "contains must be index_of(value).is_some()", cb.span)
+    ct = Termizer(F, cb).term(cb.body)
+    cs_ = ("var", "self", cb.params[0]["id"])
+    cv_ = ("var", cb.params[1]["name"], cb.params[1]["id"])
+    rr.check(ct == ("call", "Option::is_some", (("call", "IndexedDict::index_of", (cs_, cv_)),)), "RearCodedList::contains", "contains must be index_of(value).is_some(); found %s" % tshow(ct)[:120], cb.span)
     bb = F.one(r"^dict::rear_coded_list::RearCodedListBuilder::build$")
     from r_ef import struct_literal_fields
     sl = struct_literal_fields(F, bb)
